@@ -30,11 +30,17 @@ type c18Input struct {
 	Mode     string   `json:"mode"` // graph | newpackage
 	Srcs     []string `json:"srcs"`
 	Universe bool     `json:"universe"`
+	Remove   int      `json:"remove,omitempty"` // graph-removed: index of the declaration taken out of the file
 	Importer string   `json:"importer"` // nil | ok | fail | failsome
 }
 
 // ---------------------------------------------------------------------------------------------
-func c18Graph(src string) (key, what string, coqCase string) {
+func c18Graph(src string) (key, what string, coqCase string) { return c18GraphRemoving(src, -1) }
+
+// c18GraphRemoving: as c18Graph; with remove >= 0 the remove-th declaration is taken out of File.Decls
+// after decorating (objects keep pointing at it: a declaring node outside the tree, restored by the
+// deferred Decl / Data pass of Extras together with the objects first met inside it)
+func c18GraphRemoving(src string, remove int) (key, what string, coqCase string) {
 	fset := token.NewFileSet()
 	af, err := parser.ParseFile(fset, "a.go", src, parser.ParseComments)
 	if err != nil {
@@ -84,6 +90,16 @@ func c18Graph(src string) (key, what string, coqCase string) {
 		return "c18-scope", "the file scope is not the counterpart of the ast file scope", ""
 	}
 	coqCase = c18DumpCase(dec, af)
+	if remove >= 0 {
+		coqCase = ""
+		if remove >= len(df.Decls) {
+			return "", "", ""
+		}
+		if gd, ok := df.Decls[remove].(*dst.GenDecl); ok && gd.Tok == token.IMPORT {
+			return "", "", ""
+		}
+		df.Decls = append(append([]dst.Decl{}, df.Decls[:remove]...), df.Decls[remove+1:]...)
+	}
 	// restore with extras
 	r := decorator.NewRestorer()
 	r.Extras = true
@@ -709,6 +725,12 @@ func c18Check(in c18Input) (key, what string) {
 		return c18CrossFile(in, true)
 	}
 	for _, s := range in.Srcs {
+		if in.Mode == "graph-removed" {
+			if k, w, _ := c18GraphRemoving(s, in.Remove); k != "" {
+				return k, w
+			}
+			continue
+		}
 		if k, w, _ := c18Graph(s); k != "" {
 			return k, w
 		}
@@ -726,6 +748,18 @@ func c18Prop(c *Ctx) {
 		c.Res.hist("c18", "graph")
 		if key, what := c18Check(in); key != "" {
 			c.Res.fail(key, what, in)
+		}
+	}
+	// every declaration of the small sources removed in turn (the declaring node is then outside the tree)
+	removed := append([]string{"package p\n\nfunc init() { last = sum(1, 2) }\n\nfunc sum(a, b int) (r int) {\n\tr = a + b\n\treturn\n}\n\nvar last = 0\n\ntype T struct{ f int }\n\nfunc (t T) get() int { return t.f + last }\n"}, srcs[:3]...)
+	for _, s := range removed {
+		for i := 0; i < 8; i++ {
+			in := c18Input{Mode: "graph-removed", Srcs: []string{s}, Remove: i}
+			c.Res.Evaluations++
+			c.Res.hist("c18", "graph with a declaration removed")
+			if key, what := c18Check(in); key != "" {
+				c.Res.fail(key, what, in)
+			}
 		}
 	}
 	for _, files := range c18CrossFiles {
